@@ -29,6 +29,7 @@ import (
 	"time"
 
 	"github.com/cosmos72/gomacro/fast"
+	"github.com/cosmos72/gomacro/imports"
 	xr "github.com/cosmos72/gomacro/xreflect"
 	"verifh/vh"
 )
@@ -76,6 +77,7 @@ type state struct {
 	nameds   []namedDecl
 	vars     []varDecl
 	declared map[string]bool // every top-level name declared (incl. imports)
+	kind     map[string]string // declared top-level name -> var | const | func | type | import
 	imports  []string
 	src      []string
 	coqName  string
@@ -88,7 +90,7 @@ var topPool = []string{"fo", "foo", "foo1", "foo2", "forx", "fun1", "fu", "intx"
 	"map1", "ma", "ifoo", "i", "vx", "va", "var1", "ty", "typ", "t1", "t2", "tt", "br", "brk", "sel", "se", "ret", "re", "x", "xy", "xyz", "y", "_u", "_", "a1", "A1", "Ab", "AB", "nil1", "ne", "new1",
 	"tr", "tru", "pan", "pr", "pri", "printx", "c", "co", "con", "de", "def", "el", "ra", "sw", "st", "ch", "cha", "ui", "uin", "by", "bo", "er", "ru", "fl", "im", "ma_2", "mac", "te", "temp", "go1", "ap", "cl", "cm", "rea", "rec"}
 
-var importPool = []string{"strings", "fmt", "math", "sort", "strconv", "errors", "bytes"}
+var importPool = []string{"strings", "fmt", "math", "sort", "strconv", "errors", "bytes", "reflect", "time", "io"}
 
 func pick(rng *vh.Rng, pool []string, used map[string]bool) string {
 	for k := 0; k < 200; k++ {
@@ -120,19 +122,19 @@ func (st *state) eval(src string) bool {
 // declared in an outer type may shadow them (different depth), two members at the same depth never collide
 // because every member name is otherwise globally unique and a struct type is embedded at most once.
 func newState(rng *vh.Rng, idx int) *state {
-	st := &state{ir: fast.New(), declared: map[string]bool{}, coqName: fmt.Sprintf("st%d", idx)}
+	st := &state{ir: fast.New(), declared: map[string]bool{}, kind: map[string]string{}, coqName: fmt.Sprintf("st%d", idx)}
 	g := &st.ir.Comp.Globals
 	g.Stdout, g.Stderr = io.Discard, io.Discard
 	usedTop := map[string]bool{}
 	usedMem := map[string]bool{}
-	decl := func(name string) { st.declared[name] = true; usedTop[name] = true }
+	decl := func(name, kind string) { st.declared[name] = true; usedTop[name] = true; st.kind[name] = kind }
 
 	// imports
 	for _, p := range importPool {
 		if rng.Chance(2, 5) {
 			if st.eval(fmt.Sprintf("import %q", p)) {
 				st.imports = append(st.imports, p)
-				decl(p)
+				decl(p, "import")
 			}
 		}
 	}
@@ -148,7 +150,7 @@ func newState(rng *vh.Rng, idx int) *state {
 		}
 		if st.eval(fmt.Sprintf("type %s interface { %s }", d.Name, strings.Join(ms, "; "))) {
 			st.ifaces = append(st.ifaces, d)
-			decl(d.Name)
+			decl(d.Name, "type")
 		}
 	}
 	// named non-struct types with methods
@@ -164,7 +166,7 @@ func newState(rng *vh.Rng, idx int) *state {
 			}
 		}
 		st.nameds = append(st.nameds, d)
-		decl(d.Name)
+		decl(d.Name, "type")
 	}
 	// struct types, leaves first; each is embedded at most once
 	embeddedOnce := map[int]bool{}
@@ -260,7 +262,7 @@ func newState(rng *vh.Rng, idx int) *state {
 			}
 		}
 		st.structs = append(st.structs, d)
-		decl(d.Name)
+		decl(d.Name, "type")
 	}
 	// variables of the declared types
 	addVar := func(v varDecl, typ string) {
@@ -270,7 +272,7 @@ func newState(rng *vh.Rng, idx int) *state {
 		}
 		if st.eval(fmt.Sprintf("var %s %s", v.Name, typ)) {
 			st.vars = append(st.vars, v)
-			decl(v.Name)
+			decl(v.Name, "var")
 		}
 	}
 	for j, d := range st.structs {
@@ -290,22 +292,22 @@ func newState(rng *vh.Rng, idx int) *state {
 	// plain variables, constants, functions sharing prefixes with keywords and builtins
 	for i, n := 0, 4+rng.Intn(10); i < n; i++ {
 		name := pick(rng, topPool, usedTop)
-		var src string
+		var src, kind string
 		switch rng.Intn(4) {
 		case 0:
-			src = fmt.Sprintf("var %s int", name)
+			src, kind = fmt.Sprintf("var %s int", name), "var"
 		case 1:
-			src = fmt.Sprintf("const %s = %d", name, i)
+			src, kind = fmt.Sprintf("const %s = %d", name, i), "const"
 		case 2:
-			src = fmt.Sprintf("func %s() {}", name)
+			src, kind = fmt.Sprintf("func %s() {}", name), "func"
 		default:
-			src = fmt.Sprintf("var %s = \"s\"", name)
+			src, kind = fmt.Sprintf("var %s = \"s\"", name), "var"
 		}
 		if name == "_" {
 			continue
 		}
 		if st.eval(src) {
-			decl(name)
+			decl(name, kind)
 		}
 	}
 	return st
@@ -386,6 +388,32 @@ func (st *state) structFieldTypes(j int) map[string]tref {
 	return out
 }
 
+func sortedKeys2(m map[string]string) []string {
+	out := make([]string, 0, len(m))
+	for k := range m {
+		out = append(out, k)
+	}
+	sort.Strings(out)
+	return out
+}
+
+// wordKinds classifies the names a single word may complete to: the declared ones by their declaration,
+// the ones of a fresh interpreter as keyword | predeclared
+func wordKinds(st *state, base map[string]bool) map[string]string {
+	out := map[string]string{}
+	for n := range base {
+		if token.Lookup(n).IsKeyword() {
+			out[n] = "keyword"
+		} else {
+			out[n] = "predeclared"
+		}
+	}
+	for n, k := range st.kind {
+		out[n] = k
+	}
+	return out
+}
+
 func sortedKeys(m map[string]bool) []string {
 	out := make([]string, 0, len(m))
 	for k := range m {
@@ -400,6 +428,127 @@ func filterPrefix(names []string, p string) []string {
 	for _, n := range names {
 		if strings.HasPrefix(n, p) {
 			out = append(out, n)
+		}
+	}
+	return out
+}
+
+
+// ---------------------------------------------------------------- member kinds (for the exact-name sweep)
+
+// memberKinds classifies every member name valid on a value of type t (shallowest occurrence wins):
+// field | embedded-field | method | promoted-field | promoted-embedded-field | promoted-method | iface-method
+func (st *state) memberKinds(t tref) map[string]string {
+	out := map[string]string{}
+	set := func(n, k string) {
+		if _, ok := out[n]; !ok {
+			out[n] = k
+		}
+	}
+	switch {
+	case t.Iface >= 0:
+		for _, m := range st.ifaces[t.Iface].Methods {
+			set(m, "iface-method")
+		}
+	case t.Named >= 0:
+		for _, m := range st.nameds[t.Named].Methods {
+			set(m, "method")
+		}
+	case t.Struct >= 0:
+		level, pro := []int{t.Struct}, ""
+		for len(level) > 0 {
+			var next []int
+			for _, s := range level {
+				d := st.structs[s]
+				for _, m := range d.Methods {
+					set(m, pro+"method")
+				}
+				for _, f := range d.Fields {
+					if f.Embedded {
+						set(f.Name, pro+"embedded-field")
+					} else {
+						set(f.Name, pro+"field")
+					}
+					if f.Embedded && f.Struct >= 0 {
+						next = append(next, f.Struct)
+					}
+					if f.Embedded && f.Iface >= 0 {
+						for _, m := range st.ifaces[f.Iface].Methods {
+							set(m, "promoted-iface-method")
+						}
+					}
+				}
+			}
+			level, pro = next, "promoted-"
+		}
+	}
+	return out
+}
+
+// pkgMemberKinds classifies the exported names of a precompiled package from gomacro's import table
+// (imports.Packages, tied to the real packages by C31): func | var | const | type
+func pkgMemberKinds(path string) map[string]string {
+	out := map[string]string{}
+	pkg, ok := imports.Packages[path]
+	if !ok {
+		return out
+	}
+	for n, v := range pkg.Binds {
+		switch {
+		case v.Kind() == r.Func:
+			out[n] = "func"
+		case v.Kind() == r.Ptr && pkg.Untypeds[n] == "":
+			// variables are stored as pointers to them (typed constants of pointer type do not exist)
+			out[n] = "var"
+		default:
+			out[n] = "const"
+		}
+	}
+	for n := range pkg.Types {
+		out[n] = "type"
+	}
+	return out
+}
+
+// exactNames picks, for every kind, up to perKind names to be typed in FULL: first a name that is a proper
+// prefix of another candidate (the exact match must be offered together with its extensions), then random ones.
+func exactNames(rng *vh.Rng, kinds map[string]string, perKind int) [][2]string {
+	byKind := map[string][]string{}
+	for n, k := range kinds {
+		byKind[k] = append(byKind[k], n)
+	}
+	var ks []string
+	for k := range byKind {
+		ks = append(ks, k)
+	}
+	sort.Strings(ks)
+	all := make([]string, 0, len(kinds))
+	for n := range kinds {
+		all = append(all, n)
+	}
+	sort.Strings(all)
+	var out [][2]string
+	for _, k := range ks {
+		names := byKind[k]
+		sort.Strings(names)
+		chosen := map[string]bool{}
+		var ext []string
+		for _, n := range names {
+			for _, m := range all {
+				if len(m) > len(n) && strings.HasPrefix(m, n) {
+					ext = append(ext, n)
+					break
+				}
+			}
+		}
+		if len(ext) > 0 {
+			chosen[ext[rng.Intn(len(ext))]] = true
+		}
+		for tries := 0; len(chosen) < perKind && len(chosen) < len(names) && tries < 50; tries++ {
+			chosen[names[rng.Intn(len(names))]] = true
+		}
+		for _, n := range sortedKeys(chosen) {
+			out = append(out, [2]string{k, n})
 		}
 	}
 	return out
@@ -525,6 +674,7 @@ type query struct {
 	Line  string `json:"line"`
 	Pos   int    `json:"pos"`
 	Class string `json:"class"` // word | chain | pkg | free
+	Exact string `json:"exact,omitempty"` // kind of the name typed in full (exact-name sweep)
 	// reference
 	Typed string   `json:"typed,omitempty"`
 	Want  []string `json:"want,omitempty"`
@@ -562,6 +712,9 @@ func partial(rng *vh.Rng, name string, allowEmpty bool) string {
 		return ""
 	}
 	n := lo + rng.Intn(len(name)-lo+1)
+	if rng.Chance(1, 5) {
+		n = len(name) // the full name: the exact match and its extensions must both be offered
+	}
 	p := name[:n]
 	if rng.Chance(1, 10) {
 		p += string("qZ_9"[rng.Intn(4)])
@@ -706,6 +859,30 @@ func main() {
 
 		var qs []query
 		addQ := func(q query) { q.State = s; qs = append(qs, q) }
+		// reference listing of a package: the exported names of gomacro's import table (functions, variables,
+		// constants AND types), compared once with what the implementation lists for the empty prefix
+		pkgCache := map[string][]string{}
+		pkgAll := func(pkg string) []string {
+			if all, ok := pkgCache[pkg]; ok {
+				return all
+			}
+			ref := sortedKeys2(pkgMemberKinds(pkg))
+			_, all, _ := ir.CompleteWords(pkg+".", len(pkg)+1)
+			for _, n := range all {
+				if !token.IsExported(n) {
+					rep.Fail(vh.Failure{Key: "pkg-unexported:" + pkg + "." + n, What: "package completion offers an unexported name", Input: pkg + ".", Got: n})
+				}
+			}
+			if len(all) == 0 {
+				rep.Fail(vh.Failure{Key: "pkg-empty:" + pkg, What: "imported package offers no names", Input: pkg + "."})
+			}
+			if strings.Join(all, " ") != strings.Join(ref, " ") {
+				rep.Fail(vh.Failure{Key: "pkg-listing:" + pkg, What: "names listed for 'pkg.' differ from the exported functions, variables, constants and types of the import table",
+					Input: map[string]interface{}{"decls": st.src, "line": pkg + ".", "pos": len(pkg) + 1}, Got: all, Want: ref})
+			}
+			pkgCache[pkg] = ref
+			return ref
+		}
 		for k := 0; k < perState; k++ {
 			ctx := contexts[qr.Intn(len(contexts))]
 			tail := tails[qr.Intn(len(tails))]
@@ -754,18 +931,10 @@ func main() {
 				addQ(query{Line: ctx + chain + tail, Pos: len(ctx) + len(chain), Class: "chain", Typed: p, Want: filterPrefix(mem, p)})
 			case x < 17 && len(st.imports) > 0: // package chain
 				pkg := st.imports[qr.Intn(len(st.imports))]
-				_, all, _ := ir.CompleteWords(pkg+".", len(pkg)+1)
+				all := pkgAll(pkg)
 				p := ""
 				if len(all) > 0 {
 					p = partial(qr, all[qr.Intn(len(all))], true)
-				}
-				for _, n := range all {
-					if !token.IsExported(n) {
-						rep.Fail(vh.Failure{Key: "pkg-unexported:" + pkg + "." + n, What: "package completion offers an unexported name", Input: pkg + ".", Got: n})
-					}
-				}
-				if len(all) == 0 {
-					rep.Fail(vh.Failure{Key: "pkg-empty:" + pkg, What: "imported package offers no names", Input: pkg + "."})
 				}
 				addQ(query{Line: ctx + pkg + "." + p + tail, Pos: len(ctx) + len(pkg) + 1 + len(p), Class: "pkg", Typed: p, Want: filterPrefix(all, p)})
 			default: // free form: correspondence + generic predicates only
@@ -787,6 +956,34 @@ func main() {
 				line := sb.String()
 				pos := qr.Intn(len(line)+4) - 1
 				addQ(query{Line: line, Pos: pos, Class: "free"})
+			}
+		}
+
+		// ---- exact-name sweep: for every member kind of every class the typed word is the FULL name
+		for _, kn := range exactNames(qr, wordKinds(st, base), 2) {
+			ctx, tail := contexts[qr.Intn(len(contexts))], tails[qr.Intn(len(tails))]
+			if strings.HasPrefix(tail, "pha") || strings.HasPrefix(tail, "_x") {
+				tail = "" // (text glued after the cursor is fine for CompleteWords, but keep the typed word a whole word here)
+			}
+			addQ(query{Line: ctx + kn[1] + tail, Pos: len(ctx) + len(kn[1]), Class: "word", Exact: kn[0], Typed: kn[1], Want: filterPrefix(uniNames, kn[1])})
+		}
+		for vi, v := range st.vars {
+			if vi >= 4 && !a.Thorough() {
+				break
+			}
+			cur := tref{v.Struct, v.Iface, v.Named}
+			mem := sortedKeys(st.members(cur))
+			for _, kn := range exactNames(qr, st.memberKinds(cur), 1) {
+				chain := spaced(qr, []string{v.Name, kn[1]})
+				ctx := contexts[qr.Intn(len(contexts))]
+				addQ(query{Line: ctx + chain, Pos: len(ctx) + len(chain), Class: "chain", Exact: kn[0], Typed: kn[1], Want: filterPrefix(mem, kn[1])})
+			}
+		}
+		for _, pkg := range st.imports {
+			all := pkgAll(pkg)
+			for _, kn := range exactNames(qr, pkgMemberKinds(pkg), 2) {
+				ctx, tail := contexts[qr.Intn(len(contexts))], []string{"", "", "(", " + 1", "{}"}[qr.Intn(5)]
+				addQ(query{Line: ctx + pkg + "." + kn[1] + tail, Pos: len(ctx) + len(pkg) + 1 + len(kn[1]), Class: "pkg", Exact: kn[0], Typed: kn[1], Want: filterPrefix(all, kn[1])})
 			}
 		}
 
@@ -851,6 +1048,9 @@ func main() {
 			rep.CaseInput(idx, map[string]interface{}{"decls": st.src, "line": q.Line, "pos": q.Pos, "class": q.Class, "head": head, "completions": comps, "tail": tail})
 			rep.Count(strings.Join(st.src, ";")+"\x00"+q.Line+"\x00"+fmt.Sprint(q.Pos), len(comps) > 0)
 			rep.Dist("class:" + q.Class)
+			if q.Exact != "" {
+				rep.Dist("exact-name:" + q.Class + ":" + q.Exact)
+			}
 			switch {
 			case len(comps) == 0:
 				rep.Dist("completions:0")
